@@ -549,7 +549,8 @@ def _loop_driver(ctx, b, h, body):
             al = op_local(t['args'][0])
             aty = b.local_ty(al)['s'] if al is not None else ''
             tys = st + ' ' + aty
-            finite = any(hint in tys for hint in FINITE_ITER_HINTS) and 'common::deque::Deque' not in tys
+            heads = [x.replace('&mut ', '').replace('&', '').strip() for x in (st, aty)]
+            finite = any(h.startswith(FINITE_ITER_HINTS) for h in heads if h)
             if not finite and targets:
                 # in-crate Iterator wrapper: finite if its own `next` only loops over finite std iterators
                 finite = all(_finite_wrapper(ctx, tg) for tg in targets)
@@ -638,8 +639,8 @@ def _finite_wrapper(ctx, nid, _stack=()):
         name = ext or ''
         if name.endswith('::next') and t['args']:
             al = op_local(t['args'][0])
-            tys = t.get('self_ty', {}).get('s', '') + ' ' + (b.local_ty(al)['s'] if al is not None else '')
-            if any(h in tys for h in FINITE_ITER_HINTS):
+            heads = [x.replace('&mut ', '').replace('&', '').strip() for x in (t.get('self_ty', {}).get('s', ''), b.local_ty(al)['s'] if al is not None else '')]
+            if any(h.startswith(FINITE_ITER_HINTS) for h in heads if h):
                 return True
     return False
 
